@@ -254,6 +254,14 @@ theorem written_once_returned (cfg : Cfg) (hfix : cfg.fixedInit = true) (ops : L
   have : o = r := honly o hmem hd.sameKey.symm
   rw [← this]; exact ho
 
+/-- the same on the columnar read path (`PullBatch`, batch cut as repaired by fixes/F57.diff) -/
+theorem written_once_returned_batch (cfg : Cfg) (hfix : cfg.fixedInit = true) (hb : cfg.batchFinishRun = true)
+    (hmr : 0 < cfg.batchRows) (ops : List Op) (q : Query) (h0 : ¬ (0 ∈ q.sids))
+    (r : Row) (hr : r ∈ covered q (written ops))
+    (honly : ∀ x ∈ covered q (written ops), SameKey x r → x = r) : r ∈ (Table.run cfg ops).queryBatch cfg q := by
+  rw [C02.batch_path_eq_row_path cfg hfix hb hmr ops q h0]
+  exact written_once_returned cfg hfix ops q h0 r hr honly
+
 example : readTag 'A' (storeTag 'A' (.strArr [[124, 92], [], [65]])) = some (.strArr [[124, 92], [], [65]]) := by decide
 example : readField 'f' (storeField 'f' (.flt 0x8000000000000000#64)) = some (.flt 0x8000000000000000#64) := by decide
 
